@@ -195,6 +195,16 @@ def nextCompleteOutgoingInputFrame (s : P2P) (localHandles : List Nat) : Option 
     | none => none
     | some inputs => if complete inputs then some next else none
 
+/-- One complete frame of local inputs leaves the outgoing queue and is handed to every remote
+endpoint (`send_input` + `send_all_messages`); it becomes the last sent frame. -/
+def sendFrameToRemotes (s : P2P) (now : Nat) (frame : Frame) (inputs : List (Nat × PlayerInput)) : M P2P := do
+  let s := { s with outgoingLocalInputs := aerase frame s.outgoingLocalInputs }
+  let (remotes, out) ← s.remotes.foldlM (fun (acc, out) (a, e) => do
+    let e ← e.sendInput now inputs s.localConnectStatus
+    let (e, msgs) := e.sendAllMessages
+    pure (acc ++ [(a, e)], out ++ msgs.map fun m => (a, m))) ([], [])
+  pure { s with remotes, outbox := s.outbox ++ out, lastSentOutgoingInputFrame := frame }
+
 def sendReadyOutgoingInputsToRemotes (s : P2P) (now : Nat) : M P2P := do
   if s.remotes.isEmpty then return s
   let localHandles := s.localPlayerHandles
@@ -209,12 +219,8 @@ def sendReadyOutgoingInputsToRemotes (s : P2P) (now : Nat) : M P2P := do
         let inputs ← match alookup frame s.outgoingLocalInputs with
           | some i => pure i
           | none => .error "send_ready_outgoing_inputs: complete frame no longer queued"
-        let s := { s with outgoingLocalInputs := aerase frame s.outgoingLocalInputs }
-        let (remotes, out) ← s.remotes.foldlM (fun (acc, out) (a, e) => do
-          let e ← e.sendInput now inputs s.localConnectStatus
-          let (e, msgs) := e.sendAllMessages
-          pure (acc ++ [(a, e)], out ++ msgs.map fun m => (a, m))) ([], [])
-        loop fuel { s with remotes, outbox := s.outbox ++ out, lastSentOutgoingInputFrame := frame }
+        let s ← s.sendFrameToRemotes now frame inputs
+        loop fuel s
   loop (s.outgoingLocalInputs.length + 1) s
 
 /-- The default-input frames in front of the very first (delayed) input of a local player are
@@ -245,6 +251,17 @@ def registerLocalInputs (s : P2P) (now : Nat) : M P2P := do
   let s ← s.localPlayerHandles.foldlM registerOne s
   s.sendReadyOutgoingInputsToRemotes now
 
+/-- One confirmed frame is handed to every running spectator endpoint (`send_input` +
+`send_all_messages`), and the next spectator frame moves on. -/
+def offerToSpectators (s : P2P) (now : Nat) (inputMap : List (Nat × PlayerInput)) : M P2P := do
+  let (spectators, out) ← s.spectators.foldlM (fun (acc, out) (a, e) => do
+    if e.isRunning then
+      let e ← e.sendInput now inputMap s.localConnectStatus
+      let (e, msgs) := e.sendAllMessages
+      pure (acc ++ [(a, e)], out ++ msgs.map fun m => (a, m))
+    else pure (acc ++ [(a, e)], out)) ([], [])
+  pure { s with spectators, outbox := s.outbox ++ out, nextSpectatorFrame := s.nextSpectatorFrame + 1 }
+
 def sendConfirmedInputsToSpectators (s : P2P) (now : Nat) (confirmed : Frame) : M P2P := do
   if s.numSpectators == 0 then return s
   let rec loop : Nat → P2P → M P2P
@@ -255,14 +272,8 @@ def sendConfirmedInputsToSpectators (s : P2P) (now : Nat) (confirmed : Frame) : 
         ensure (inputs.length == s.numPlayers) "send_confirmed_inputs_to_spectators: wrong input count"
         ensure (inputs.all fun i => i.frame == NULL_FRAME || i.frame == s.nextSpectatorFrame)
           "send_confirmed_inputs_to_spectators: input of another frame"
-        let inputMap := inputs.zipIdx.map fun (i, h) => (h, i)
-        let (spectators, out) ← s.spectators.foldlM (fun (acc, out) (a, e) => do
-          if e.isRunning then
-            let e ← e.sendInput now inputMap s.localConnectStatus
-            let (e, msgs) := e.sendAllMessages
-            pure (acc ++ [(a, e)], out ++ msgs.map fun m => (a, m))
-          else pure (acc ++ [(a, e)], out)) ([], [])
-        loop fuel { s with spectators, outbox := s.outbox ++ out, nextSpectatorFrame := s.nextSpectatorFrame + 1 }
+        let s ← s.offerToSpectators now (inputs.zipIdx.map fun (i, h) => (h, i))
+        loop fuel s
       else .ok s
   loop ((confirmed - s.nextSpectatorFrame + 1).toNat) s
 
